@@ -54,8 +54,12 @@ def gen_case(streams, tier):
     faults = world.gen_reject_faults(f, script, ncyc, rate=0.7)
     one_bit = [w['n'] for w in script['wires'] if w['w'] == 1 and w['k'] in 'WRI']
     assertion = None
+    assertion2 = None
     if one_bit and kind != 'compiled' and f.random() < 0.5:
         assertion = f.choice(one_bit)
+        rest = [n for n in one_bit if n != assertion]
+        if rest and f.random() < 0.5:
+            assertion2 = f.choice(rest)       # a second, later-registered assertion
     outs = [w['n'] for w in script['wires'] if w['k'] == 'O']
     wrong = []
     for _ in range(f.randint(0, 4)):
@@ -63,7 +67,8 @@ def gen_case(streams, tier):
     return {
         'prop': ID, 'kind': kind, 'script': script, 'init': init,
         'cycles': gen.gen_inputs(streams['inputs'], script, ncyc),
-        'faults': faults, 'assert_wire': assertion, 'wrong_cells': wrong,
+        'faults': faults, 'assert_wire': assertion, 'assert_wire2': assertion2,
+        'wrong_cells': wrong,
         'batches': [streams['sched'].randint(1, 4) for _ in range(ncyc)],
         'vcd_clock': g.random() < 0.3,
         'sched': world.gen_sched(streams),
@@ -141,7 +146,7 @@ def check_vcd(sim, include_clock, widths):
     for name, i in ids.items():
         if vars_[i] != widths[name]:
             return Violation('vcd', 'width_mismatch', {'name': name, 'vcd': vars_[i]})
-        if dump.get(i) != tr.trace[name][0]:
+        if i in dump and dump[i] != tr.trace[name][0]:
             return Violation('vcd', 'dumpvars_mismatch', {'name': name, 'vcd': dump.get(i),
                                                            'trace': tr.trace[name][0]})
     main = [(t, v) for t, v in times if t % 10 == 0 and t < n * 10]
@@ -149,11 +154,14 @@ def check_vcd(sim, include_clock, widths):
         return Violation('vcd', 'timestamps', {'got': [t for t, _ in times][:20], 'n': n})
     if end != n * 10:
         return Violation('vcd', 'end_time', {'got': end, 'n': n})
+    # value-change-dump semantics: a signal keeps its last dumped value until it is dumped again
+    cur = dict(dump)
     for k, (t, vals) in enumerate(main):
+        cur.update(vals)
         for name, i in ids.items():
-            if vals.get(i) != tr.trace[name][k]:
+            if cur.get(i) != tr.trace[name][k]:
                 return Violation('vcd', 'value_mismatch', {'name': name, 'cycle': k,
-                                                           'vcd': vals.get(i),
+                                                           'vcd': cur.get(i),
                                                            'trace': tr.trace[name][k]})
     return None
 
@@ -223,9 +231,13 @@ def run(case, res):
     world.setup_world(sched)
     b = world.build_dut(script, sched)
     aw = case.get('assert_wire')
+    aw2 = case.get('assert_wire2') if aw else None
     if aw and aw in b.wires:
         with pyrtl.set_working_block(b.block, no_sanity_check=True):
             pyrtl.rtl_assert(b.wires[aw], PlantedAssertion('planted'), block=b.block)
+            if aw2 and aw2 in b.wires:
+                pyrtl.rtl_assert(b.wires[aw2], PlantedAssertion('planted2'), block=b.block)
+                res.probes.hit('two_assertions')
     live = replica.Live.from_built(b)
     ref = world.ref_for(script, init)
     tape = case['cycles']
@@ -238,8 +250,10 @@ def run(case, res):
         except DoubleWrite:
             break
         exp.append(v)
-        if aw and fire is None and v[aw] == 0:
+        if aw and fire is None and (v[aw] == 0 or (aw2 and v[aw2] == 0)):
             fire = ci
+            if v[aw] == 0 and aw2 and v[aw2] == 1:
+                res.probes.hit('first_assertion_fails_while_second_holds')
             break
     ncyc = len(exp)
     if ncyc == 0:
